@@ -31,7 +31,7 @@ pub struct TypeEntry {
     pub eq: EqFn,
 }
 
-fn probe<T: ZvtSerializer + std::fmt::Debug + PartialEq>(b: &[u8]) -> Result<Probed, ZVTError>
+pub fn probe_ty<T: ZvtSerializer + std::fmt::Debug + PartialEq>(b: &[u8]) -> Result<Probed, ZVTError>
 where
     zvt::encoding::Default: zvt::encoding::Encoding<T>,
 {
@@ -51,14 +51,14 @@ where
     };
     Ok(Probed { dbg: format!("{v:?}"), rest: rest.len(), re, again, again_detail })
 }
-fn decode<T: ZvtSerializer + std::fmt::Debug>(b: &[u8]) -> Result<(String, usize), ZVTError>
+pub fn decode_ty<T: ZvtSerializer + std::fmt::Debug>(b: &[u8]) -> Result<(String, usize), ZVTError>
 where
     zvt::encoding::Default: zvt::encoding::Encoding<T>,
 {
     let (v, rest) = T::zvt_deserialize(b)?;
     Ok((format!("{v:?}"), rest.len()))
 }
-fn quiet<T: ZvtSerializer>(b: &[u8]) -> Result<usize, ZVTError>
+pub fn quiet_ty<T: ZvtSerializer>(b: &[u8]) -> Result<usize, ZVTError>
 where
     zvt::encoding::Default: zvt::encoding::Encoding<T>,
 {
@@ -67,7 +67,7 @@ where
     let suffix = rest.is_empty() || (rest.len() <= b.len() && rest.as_ptr() as usize + rest.len() == b.as_ptr() as usize + b.len());
     Ok(if suffix { rest.len() } else { usize::MAX })
 }
-fn eq<T: ZvtSerializer + PartialEq>(a: &[u8], b: &[u8]) -> Option<bool>
+pub fn eq_ty<T: ZvtSerializer + PartialEq>(a: &[u8], b: &[u8]) -> Option<bool>
 where
     zvt::encoding::Default: zvt::encoding::Encoding<T>,
 {
@@ -78,7 +78,7 @@ where
 
 macro_rules! ty {
     ($name:literal, $t:ty) => {
-        TypeEntry { name: $name, probe: probe::<$t>, decode: decode::<$t>, quiet: quiet::<$t>, eq: eq::<$t> }
+        TypeEntry { name: $name, probe: probe_ty::<$t>, decode: decode_ty::<$t>, quiet: quiet_ty::<$t>, eq: eq_ty::<$t> }
     };
 }
 
